@@ -69,6 +69,12 @@ def boot():
     adani.HighScaleSplitLogs = _HS
     import yadism
 
+    import logging
+
+    import yadism.log
+
+    yadism.log.silent_mode = True  # Runner.__init__ then logs into an in-memory console
+    logging.disable(logging.CRITICAL)
     path = os.path.realpath(yadism.__file__)
     if not path.startswith(os.path.realpath(SRC) + os.sep):
         raise RuntimeError(f"yadism imported from {path}, expected under {SRC}")
